@@ -8,6 +8,7 @@ VARIABLE l
 Init == l = 1
 Next == /\ l <= Len(Trace)
         /\ CaseVerdict(Trace[l]) = Trace[l].impl
+        /\ Trace[l].again = Trace[l].impl      \* the same question after the genuine proof was verified: same answer
         /\ l' = l + 1
 Reached == PrintT(<<"TRACE_REACHED", TLCGet("stats").diameter - 1, Len(Trace)>>)
 =============================================================================
